@@ -45,7 +45,7 @@ func runC18(c *Ctx) {
 		isCopy := false
 		for _, st := range u.Sites {
 			if st.Kind == flow.SStore && st.RHS != nil {
-				if id, isID := ast.Unparen(st.LHS).(*ast.Ident); isID && id.Name == root {
+				if _, isID := ast.Unparen(st.LHS).(*ast.Ident); isID && localName(u, st.LHS) == root {
 					t := u.C.Term(st.RHS)
 					if strings.HasSuffix(t, ".GetCopy()") || strings.HasSuffix(t, ".DeepClone()") || strings.Contains(t, "GetCopy()") || strings.Contains(t, "DeepClone()") {
 						isCopy = true
